@@ -9,6 +9,9 @@ COMPS = [
     # the retry schedule with time: the real AccountingManager under testing/synctest's virtual clock against a real
     # UDP server (model Bng.AcctBackoff); correspondence only, the monitors judge component acct
     V.Component("acctretry", kind="gotest", monitors=[]),
+    # the REAL session paths (dhcp.Server REQUEST/RELEASE, pppoe.SessionTeardown PADT) with the real radius.Client
+    # against an accounting server that can be down when a session ends (model Bng.AcctDirect)
+    V.Component("acctdirect", monitors=["lost-stop", "dup-stop", "identifiers"]),
 ]
 LEVEL = ("Theorems over a small-step model of radius.AccountingManager with THREE program counters (API call, background "
          "processor, interim goroutine): every API call (StartSession, StopSession, Stop(), recovery), every step of the "
@@ -48,7 +51,12 @@ ASSUME = [
     "restart_drains is stated for `sufficiently many` micro-steps after the restart (an explicit bound, not a fairness result)",
     "the monitor (Bng/Model/AcctSpec.lean) and the Spec theorems are two statements of the property; their equivalence is "
     "not proved, both are run/proved against the same model",
-    "known findings (not repaired): D24, KF-acct-recovery-volatile, KF-acct-start-window — see known_findings.json",
+    "radius.AccountingManager - the subject of components acct/acctretry and of all theorems but the `direct_*` ones - is "
+    "not used by the DHCP and PPPoE servers (no caller of NewAccountingManager outside tests): on the real session paths "
+    "only component acctdirect applies (direct send, finding KF-acct-direct-send). acctdirect drives RELEASE and PADT; "
+    "DECLINE, lease expiry, admin termination and the DHCP Start lost during an outage go through the same direct send "
+    "and are not driven here (C16's dhcpterm drives those paths with a server that is always up)",
+    "known findings (not repaired): D24, KF-acct-recovery-volatile, KF-acct-start-window, KF-acct-direct-send — see known_findings.json",
 ]
 
 
